@@ -15,7 +15,8 @@ RULE = ("Bool-typed filters of the SQLAlchemy fragment from the typed grammar (a
         "style's primary keys vs the reference evaluator on decided rows; the three styles equal on all "
         "rows; the case-randomised spelling selects the same rows as the canonical one. Library or foreign "
         "exceptions on a fragment filter are violations. Non-trivial: >= 2 operator/function nodes and >= 1 "
-        "decided row; distinct by (variant text, rows).")
+        "decided row; distinct by (variant text, rows)."
+        " Every case is followed, in the same process, by its look-alike twins (string-literal case swapped, blanks doubled); rows get needle-derived confuser strings.")
 ASSUMPTIONS = c01.ASSUMPTIONS + [
     "strpos/concat/floor/ceil/regexp are registered on the SQLite connection with their documented meaning",
     "date-time literals are written in UTC (Z): SQLite has no time-zone type and SQLAlchemy drops offsets",
